@@ -12,7 +12,7 @@
 From Coq Require Export ZArith List Bool Permutation QArith Qabs.
 From GV Require Export Algo.Spec Algo.Cert Algo.CertStruct Algo.Model Algo.ModelPr Algo.Run.
 From GV Require Import Algo.ProofsBase Algo.ProofsPath Algo.ProofsMsf Algo.ProofsFlow Algo.ProofsModel Algo.ProofsDijkstra
-  Algo.ProofsStruct Algo.ProofsPr Algo.ProofsPrModel.
+  Algo.ProofsStruct Algo.ProofsPr Algo.ProofsPrModel Algo.ProofsKruskal Algo.ProofsBf Algo.ProofsDijT.
 Import ListNotations.
 Open Scope Z_scope.
 
@@ -150,7 +150,7 @@ Print Assumptions lcc_cert_sound.
 
 Theorem kcore_cert_sound : forall g c maxc, kcore_cert g c maxc = true ->
   (forall v, In v (nodes g) -> exists k, lookup c v = Some k /\ core_spec g v k /\ k <= maxc) /\
-  (nodes g <> [] -> exists v, In v (nodes g) /\ lookup c v = Some maxc).
+  (nodes g <> nil -> exists v, In v (nodes g) /\ lookup c v = Some maxc).
 Proof. exact kcore_cert_sound_l. Qed.
 Print Assumptions kcore_cert_sound.
 
@@ -173,13 +173,13 @@ Theorem pr_cert_sound : forall g pr, pr_cert g pr = true ->
   NoDup (map fst pr) /\ (forall v, In v (map fst pr) <-> In v (nodes g)) /\
   exists qs, Forall2 (fun b q => f64_val b = Some q) (map snd pr) qs /\
              (forall x, In x qs -> (0 <= x)%Q) /\
-             (nodes g <> [] -> approx_distribution (1 # 1000000000) qs).
+             (nodes g <> nil -> approx_distribution (1 # 1000000000) qs).
 Proof. exact pr_cert_sound_l. Qed.
 Print Assumptions pr_cert_sound.
 
 (** PageRank as transcribed, over exact rationals: for every graph with a node, every damping factor in
     [0,1], every tolerance and every iteration bound the scores are a probability distribution *)
-Theorem pagerank_model_distribution : forall g d tol k, wf g -> nodes g <> [] -> (0 <= d <= 1)%Q ->
+Theorem pagerank_model_distribution : forall g d tol k, wf g -> nodes g <> nil -> (0 <= d <= 1)%Q ->
   map fst (pagerank_model g d tol k) = nodes g /\ distribution (map snd (pagerank_model g d tol k)).
 Proof. intros g d tol k Hwf Hne Hd. apply (pagerank_model_distribution_l g d tol Hwf Hne Hd k). Qed.
 Print Assumptions pagerank_model_distribution.
@@ -201,23 +201,36 @@ Theorem short_walk : forall g s v, wf g -> In s (nodes g) -> reachable g s v ->
 Proof. exact short_walk_l. Qed.
 Print Assumptions short_walk.
 
-(** Bellman-Ford as transcribed (n-1 rounds, early exit, negative-cycle pass): whenever it does not
-    flag a negative cycle its distances are the shortest-path distances and there is none.
-    (The converse -- a flag implies a reachable negative cycle -- is not proved for the model;
-    the check establishes it per run through [bf_cert] with an explicit cycle.) *)
-Theorem bf_model_sound_partial : forall g s d p, wf g -> In s (nodes g) ->
-  bf_model g s = (d, p, false) -> sssp_spec g s (lookup d) /\ ~ neg_cycle_from g s.
-Proof. intros g s d p Hwf Hs. apply (bf_model_sound_l g s Hwf Hs). Qed.
-Print Assumptions bf_model_sound_partial.
+(** Bellman-Ford as transcribed (n-1 rounds, early exit, negative-cycle pass): when it does not flag a
+    negative cycle its distances are the shortest-path distances and no negative cycle can be reached;
+    when it flags one, one can be reached (and then some reachable node has no distance:
+    [neg_cycle_no_dist]) *)
+Theorem bf_model_sound : forall g s d p flag, wf g -> In s (nodes g) -> bf_model g s = (d, p, flag) ->
+  if flag then neg_cycle_from g s else sssp_spec g s (lookup d) /\ ~ neg_cycle_from g s.
+Proof. exact bf_model_full_l. Qed.
+Print Assumptions bf_model_sound.
 
 (** Dijkstra as transcribed (heap with lazy deletion, re-insertion on strict improvement): whenever the
     loop ends (heap empty within the fuel) the distances are the shortest-path distances -- for any
-    weights, whatever entry of minimal distance is popped.  Partial: that the loop ends within
-    [dij_fuel] pops when the weights are non-negative is not proved (the run checks it). *)
-Theorem dijkstra_model_sound_partial : forall g s fuel st, In s (nodes g) -> dijkstra_model g s fuel = Some st ->
+    weights, whatever entry of minimal distance is popped *)
+Theorem dijkstra_model_sound : forall g s fuel st, In s (nodes g) -> dijkstra_model g s fuel = Some st ->
   sssp_spec g s (lookup (dd st)) /\ ~ neg_cycle_from g s.
 Proof. intros g s fuel st. apply (dijkstra_model_sound_l g s fuel st). Qed.
-Print Assumptions dijkstra_model_sound_partial.
+Print Assumptions dijkstra_model_sound.
+
+(** ... and with non-negative weights the loop does end within [dij_fuel g] pops (every node is expanded at
+    most once, every expansion pushes at most out-degree entries): Dijkstra returns the shortest-path distances *)
+Theorem dijkstra_model_total : forall g s, wf g -> In s (nodes g) -> (forall e, In e (edges g) -> 0 <= ew e) ->
+  exists st, dijkstra_model g s (dij_fuel g) = Some st /\ sssp_spec g s (lookup (dd st)) /\ ~ neg_cycle_from g s.
+Proof. exact dijkstra_model_total_l. Qed.
+Print Assumptions dijkstra_model_total.
+
+(** Kruskal as transcribed from the current code (stable sort by weight, union-find question answered by
+    connectivity over the chosen edges, early exit after |V|-1 edges) returns a minimum spanning forest
+    of every well-formed graph *)
+Theorem kruskal_model_msf : forall g, wf g -> msf_spec g (kruskal_model g).
+Proof. exact kruskal_model_msf_l. Qed.
+Print Assumptions kruskal_model_msf.
 
 (** Kruskal before repair f6a1e05 (first edge per node pair only) did not return a minimum forest: finding C19-K1, fixed *)
 Theorem kruskal_pre_refuted : exists g, wf g /\ k_parallel_diffw g = true /\ ~ msf_spec g (kruskal_pre g).
@@ -286,7 +299,7 @@ Proof. vm_compute. repeat split. Qed.
 (** PageRank: 0.5 + 0.5 is accepted, 0.5 + 0.25 is not; the model on a 2-cycle with a dangling third node *)
 Example nv_pagerank : pr_cert (mkG [0; 1] []) [(0, 4602678819172646912); (1, 4602678819172646912)] = true
                       /\ pr_cert (mkG [0; 1] []) [(0, 4602678819172646912); (1, 4598175219545276416)] = false
-                      /\ map snd (pagerank_model (mkG [0; 1; 2] [mkE 0 1 0 1; mkE 1 0 1 1]) (1 # 2) 0 2) = [(3 # 8)%Q; (3 # 8)%Q; (1 # 4)%Q].
+                      /\ map snd (pagerank_model (mkG [0; 1; 2] [mkE 0 1 0 1; mkE 1 0 1 1]) (1 # 2) 0 2) = [(43 # 108)%Q; (43 # 108)%Q; (11 # 54)%Q].
 Proof. vm_compute. repeat split. Qed.
 Example nv_wf : wf ex_g /\ wf ex_net /\ wf ex_neg.
 Proof. split; [|split]; apply wfb_wf; vm_compute; reflexivity. Qed.
